@@ -42,6 +42,11 @@ def globals_digest():
             m = sys.modules[name]
             d = {}
             for k, v in sorted(vars(m).items()):
+                if isinstance(v, type) and getattr(v, "__module__", "").startswith("cvss"):
+                    # class-level (shared) data attributes of the library's classes are process-global state too
+                    d["class " + k] = dict((a, deep(x)) for a, x in sorted(vars(v).items())
+                                           if not a.startswith("__") and not callable(x) and not isinstance(x, (classmethod, staticmethod, property)))
+                    continue
                 if k.startswith("__") or callable(v) or type(v).__name__ == "module":
                     continue
                 d[k] = deep(v)
